@@ -143,65 +143,66 @@ def jac_guard(check, proj):
     test of the RECONSTRUCTION (a limited reconstruction makes the space operator nonlinear even
     for linear convection); and the linearity each reconstruction class declares must be true."""
     f = proj.func("integration.implicitmodel.calc_jacobian")
-    sn = f.params[0]
-    # locals bound to the reconstruction object:  num = getattr(self.modeldisc, "num", None) / self.modeldisc.num
-    num_locals = set()
-    for n in ast.walk(f.node):
-        if isinstance(n, ast.Assign) and len(n.targets) == 1 and isinstance(n.targets[0], ast.Name):
-            if _mentions_attr(n.value, "num"):
-                num_locals.add(n.targets[0].id)
+    # decided over the BOOLEAN abstraction of what the guard can look at: the function is evaluated on its
+    # syntax tree (minieval.py) for every combination of
+    #     model.islinear in {0, 1}  x  reconstruction {linear, nonlinear, declares nothing, absent}  x  Jacobian {already computed, not yet}
+    # up to its first store into the solver object (= it recomputes) or its return before that (= it re-uses).
+    from ..minieval import MiniEval, SelfRef, Stub
 
-    def subject(t):
-        """'model' / 'num' / None for a test  X.islinear [== 1]  or  getattr(X, 'islinear', d) [== 1]"""
-        if isinstance(t, ast.Compare) and len(t.ops) == 1 and isinstance(t.ops[0], ast.Eq) and isinstance(t.comparators[0], ast.Constant) and t.comparators[0].value in (1, True):
-            t = t.left
-        obj = None
-        if isinstance(t, ast.Attribute) and t.attr == "islinear":
-            obj = t.value
-        elif isinstance(t, ast.Call) and isinstance(t.func, ast.Name) and t.func.id == "getattr" and len(t.args) >= 2 and isinstance(t.args[1], ast.Constant) and t.args[1].value == "islinear":
-            if len(t.args) == 3 and not (isinstance(t.args[2], ast.Constant) and t.args[2].value in (0, False, None)):
-                return None            # a default that means 'linear' proves nothing
-            obj = t.args[0]
-        if obj is None:
-            return None
-        if _mentions_attr(obj, "num") or (isinstance(obj, ast.Name) and obj.id in num_locals):
-            return "num"
-        if _mentions_attr(obj, "model"):
-            return "model"
-        return None
+    class _Recompute(Exception):
+        pass
 
-    def conj(t):
-        if isinstance(t, ast.BoolOp) and isinstance(t.op, ast.And):
-            out = []
-            for v in t.values:
-                out += conj(v)
-            return out
-        return [t]
-    found = 0
-    bad = []
-
-    def walk(stmts, guards, top):
-        nonlocal found
-        for i, st in enumerate(stmts):
-            last = top and i == len(stmts) - 1
-            if isinstance(st, ast.Return) and not last:
-                found += 1
-                subs = {subject(t) for g in guards for t in conj(g)}
-                missing = [w for w in ("model", "num") if w not in subs]
-                if missing:
-                    bad.append((st.lineno, missing))
-            elif isinstance(st, ast.If):
-                walk(st.body, guards + [st.test], False)
-                walk(st.orelse, guards, False)   # negated guard: not a linearity guarantee
-            elif isinstance(st, (ast.For, ast.While)):
-                walk(st.body, guards, False)
-    walk(f.node.body, [], True)
+    def stop_at_store(st, fn):
+        ts = st.targets if isinstance(st, ast.Assign) else ([st.target] if isinstance(st, (ast.AugAssign, ast.AnnAssign)) else [])
+        for t in ts:
+            r = t
+            while isinstance(r, (ast.Attribute, ast.Subscript)):
+                r = r.value
+            if isinstance(r, ast.Name) and fn.params and r.id == fn.params[0] and not isinstance(t, ast.Name):
+                raise _Recompute()
+    cls = proj.cls("integration.implicitmodel")
+    found, bad, nocache = 0, [], []
+    ncase = 0
+    for m in (0, 1):
+        for numkind in ("linear", "nonlinear", "undeclared", "absent"):
+            for have in (False, True):
+                num = {"linear": Stub("num", {"islinear": 1}), "nonlinear": Stub("num", {"islinear": 0}), "undeclared": Stub("num", {}), "absent": None}[numkind]
+                disc = Stub("modeldisc", {"num": num} if num is not None else {})
+                attrs = {"modeldisc": disc}
+                if have:
+                    attrs.update({"jacobian_use": 0, "jacobian": Stub("jacobian", {}), "neq": 1, "dim": 1})
+                me = SelfRef(cls, attrs)
+                field = Stub("field", {"model": Stub("model", {"islinear": m}), "neq": 1, "nelem": 1, "data": []})
+                ev = MiniEval(proj)
+                ev.on_stmt = stop_at_store
+                args = [me, field] + [1] * (len(f.params) - 2 - len(f.defaults()))
+                try:
+                    ev.call(f, args)
+                    reused = True
+                except _Recompute:
+                    reused = False
+                except AnalysisError as e:
+                    raise AnalysisError("calc_jacobian guard not evaluable over the boolean abstraction (model.islinear=%d, reconstruction %s, Jacobian %s): %s" % (m, numkind, "present" if have else "absent", e))
+                ncase += 1
+                if reused:
+                    found += 1
+                    if not have:
+                        nocache.append((m, numkind))
+                    elif not (m == 1 and numkind == "linear"):
+                        bad.append((m, numkind))
     names = {"model": "the model (islinear)", "num": "the reconstruction (a limited reconstruction such as muscl makes the operator nonlinear even for linear convection)"}
+    if nocache:
+        check.violation("JAC-GUARD", f.qualname, "calc_jacobian returns without computing although no Jacobian has been computed yet (model.islinear=%d, reconstruction %s)" % nocache[0], f.loc(), key="cache-none")
     if bad:
-        ln, missing = bad[0]
-        check.violation("JAC-GUARD", f.qualname, "cached-Jacobian early return at line %d is not conjoined with a linearity test of %s: later steps re-use a stale Jacobian" % (ln, " nor of ".join(names[m] for m in missing)), f.loc(), key="cache-guard" if "model" in missing else "cache-guard-num")
-    else:
-        check.ok("JAC-GUARD", f.qualname, "%d early return(s), each guarded by the linearity of the model and of the reconstruction" % found, f.loc())
+        missing = []
+        if any(m == 0 for m, k in bad):
+            missing.append("model")
+        if any(k != "linear" for m, k in bad if m == 1) or (not missing and any(k != "linear" for m, k in bad)):
+            missing.append("num")
+        ex = bad[0]
+        check.violation("JAC-GUARD", f.qualname, "the cached Jacobian is re-used although the operator is not known to be linear (e.g. model.islinear=%d, reconstruction %s): the re-use is not conditional on the linearity of %s: later steps re-use a stale Jacobian" % (ex[0], ex[1], " nor of ".join(names[x] for x in missing)), f.loc(), key="cache-guard" if "model" in missing else "cache-guard-num")
+    elif not nocache:
+        check.ok("JAC-GUARD", f.qualname, "evaluated over the boolean abstraction (%d combinations of model linearity x reconstruction linear / nonlinear / undeclared / absent x Jacobian present / absent): the stored Jacobian is re-used only when the model AND the reconstruction declare linearity and a Jacobian exists (%d re-use case(s))" % (ncase, found), f.loc())
     # declared linearity of the reconstruction classes is true
     from ..disc1d import RECON_CLASSES
     from .c11 import decoded
